@@ -8,6 +8,12 @@
 
 #include "node.h"
 
+static void set_parent(MPT_STRUCT(node) *parent, MPT_STRUCT(node) *child)
+{
+	for (; child; child = child->next) {
+		child->parent = parent;
+	}
+}
 extern MPT_STRUCT(node) *mpt_list_clone(const MPT_STRUCT(node) *src)
 {
 	MPT_STRUCT(node) *first = 0, *last = 0;
@@ -24,6 +30,7 @@ extern MPT_STRUCT(node) *mpt_list_clone(const MPT_STRUCT(node) *src)
 			/* require empty or cloned subtree */
 			if (!src->children
 			    || (cpy->children = mpt_list_clone(src->children))) {
+				set_parent(cpy, cpy->children);
 				continue;
 			}
 		}
@@ -48,5 +55,6 @@ extern MPT_STRUCT(node) *mpt_tree_clone(const MPT_STRUCT(node) *src)
 		mpt_node_destroy(cpy);
 		return 0;
 	}
+	set_parent(cpy, cpy->children);
 	return cpy;
 }
